@@ -36,15 +36,15 @@ def run(ctx):
     ctx.trust('scipy.signal.argrelextrema(x, np.greater, order=1)[0] are the integer positions of strict interior '
               'local maxima; np.pad keeps its input as the interior of the result and preserves integrality for the '
               'reflect/odd and median modes; spline / PCHIP interpolants pass through their knots')
-    rule_strict_search(ctx, 'C05.R1')
-    rule_conjugate(ctx, 'C05.R2')
-    rule_padding(ctx, 'C05.R3')
-    rule_grid(ctx, 'C05.R4')
-    rule_methods(ctx, 'C05.R5')
-    rule_parabola(ctx, 'C05.R6')
+    ctx.rule(rule_strict_search, 'C05.R1')
+    ctx.rule(rule_conjugate, 'C05.R2')
+    ctx.rule(rule_padding, 'C05.R3')
+    ctx.rule(rule_grid, 'C05.R4')
+    ctx.rule(rule_methods, 'C05.R5')
+    ctx.rule(rule_parabola, 'C05.R6')
     # extrema / padding options reach the extrema routine as supplied (defaults only fill in what is missing)
     from .c06 import rule_no_replacement
-    rule_no_replacement(ctx, 'C05.R7', only={'emd.sift.interp_envelope', 'emd.sift.get_padded_extrema'})
+    ctx.rule(rule_no_replacement, 'C05.R7', only={'emd.sift.interp_envelope', 'emd.sift.get_padded_extrema'})
     l1.rule_lib_attrs(ctx, 'L1', [IE], 'envelope')
 
 
